@@ -852,8 +852,9 @@ def indicator_value(i, v, spec):
         elif t == "NumberOfTardyTasks":
             val = sum(1 for n in names if v.end(n) > v.tspec[n]["due"])
         else:
-            if not names:
-                return None
+            all_names = i.get("tasks") or [x["name"] for x in spec["tasks"]]
+            if not names or len(names) < len(all_names):
+                return None  # maximum over a list with unscheduled members: not specified
             val = max(v.end(n) - v.tspec[n]["due"] for n in names)
         return (Fraction(val), Fraction(val))
     if t == "ResourceUtilization":
@@ -870,12 +871,10 @@ def indicator_value(i, v, spec):
             return None
         return (Fraction(100 * lo, H), Fraction(100 * hi, H))
     if t == "NumberTasksAssigned":
-        ivs = _res_intervals(v, i["res"])
-        lo = sum(m0 for *_, m0, m1 in ivs)
-        hi = sum(m1 for *_, m0, m1 in ivs)
         if i["res"] in v.cspec:
-            lo = len(ivs)
-        return (Fraction(lo), Fraction(hi))
+            return None  # indicators over a cumulative worker (other than cost bounds): not specified
+        ivs = _res_intervals(v, i["res"])
+        return (Fraction(len(ivs)), Fraction(len(ivs)))
     if t == "ResourceIdle":
         if i["res"] in v.cspec:
             return None
